@@ -235,6 +235,7 @@ Inductive laction :=
   | LTmDone (w : nat) (nx : option N)   (* schedule_timer returns next_expire; select returns *)
   | LAnonWake (k : nat)              (* eventfd write of an anonymous pusher, after its push *)
   | LAnonPre (k : nat)               (* wrong order: eventfd write of an anonymous pusher, before its push *)
+  | LSpurWake (k : nat)              (* eventfd write without a push: Selector::add_io_timer (a new earliest I/O timer) *)
   | LTick (d : N).
 
 Definition guard (P : params) (l : lst) (a : laction) : bool :=
@@ -265,6 +266,7 @@ Definition guard (P : params) (l : lst) (a : laction) : bool :=
   | LTmDone w _ => (w <? n) && match wpc l w with PTim => true | _ => false end
   | LAnonWake k => (k <? n) && push_first P && (0 <? anon l k)
   | LAnonPre k => (k <? n) && negb (push_first P)
+  | LSpurWake k => k <? n
   | LTick _ => true
   end.
 
@@ -367,6 +369,7 @@ Definition ctl (P : params) (l : lst) (a : laction) (s' : st) : lst :=
               (upd (coll0 l) w (ncoll l w))
   | LAnonWake k => set_evfd (l_anon l0 (dec (anon l) k)) k true
   | LAnonPre k => set_evfd (l_pre l0 (inc (pre l) k)) k true
+  | LSpurWake k => set_evfd l0 k true
   | LTick d => l_now l0 (now l + d)%N
   end.
 
